@@ -451,8 +451,13 @@ def rewrite_tokens(src, modpath, report):
             rs = find_receiver_start(toks, k)
             recv = src[toks[rs].start:toks[k].start].strip()
             e = seq_match(toks, next_code(toks, cl), ['.', 'filter_map', '('])
+            helper = 'keys_that_load'
             if e < 0:
-                raise GenError('R7: range(..) not followed by filter_map')
+                # same chain with `map_while`: stops at the first record that does not load
+                e = seq_match(toks, next_code(toks, cl), ['.', 'map_while', '('])
+                helper = 'keys_while_load'
+            if e < 0:
+                raise GenError('R7: range(..) not followed by filter_map / map_while')
             fop = prev_code(toks, e)
             fcl = match_close(toks, fop)
             inner = re.sub(r'\s+', '', src[toks[fop].end:toks[fcl].start])
@@ -461,11 +466,11 @@ def rewrite_tokens(src, modpath, report):
             e2 = seq_match(toks, next_code(toks, fcl), ['.', 'collect', '(', ')'])
             if e2 < 0:
                 raise GenError('R7: filter_map not followed by collect()')
-            am = re.fullmatch(r'(\w+),None,None,Order::Ascending', args)
+            am = re.fullmatch(r'(\w+),None,None,Order::(Ascending|Descending)', args)
             if not am:
                 raise GenError('R7: range arguments changed: %s' % args)
             last = prev_code(toks, e2)
-            edits.append((toks[rs].start, toks[last].end, '%s.keys_that_load(%s)' % (recv, am.group(1))))
+            edits.append((toks[rs].start, toks[last].end, '%s.%s(%s)' % (recv, helper, am.group(1))))
             bump('R7')
             k = e2
             continue
